@@ -38,6 +38,7 @@ CATALOGUE = [
     "fill_nonscalar", "fill_wrong_length", "fill_str_weight", "fill_n_wrong_rank", "fill_n_wrong_columns",
     "fill_n_weights_wrong_length", "fill_n_weights_str", "fill_n_values_str", "fill_n_grow_then_bad_weights",
     "fill_weight_too_large_for_dtype", "fill_n_weight_too_large_for_dtype",
+    "fill_grow_then_too_short", "fill_grow_then_none_coordinate", "fill_grow_then_str_weight",
     # dtype faults
     "dtype_complex", "dtype_str", "dtype_object", "dtype_lossy_int", "dtype_too_narrow", "dtype_setter_lossy",
     # axis faults
@@ -295,6 +296,21 @@ def apply_invalid(h, kind, arg):
         h.fill([0.5] * (nd + 1) if arg % 2 else [0.5] * (nd - 1))
     elif kind == "fill_str_weight":
         h.fill(0.5 if nd == 1 else [0.5] * nd, "heavy")
+    elif kind == "fill_grow_then_too_short":
+        if nd == 1 or not h.is_adaptive():
+            return NotImplemented
+        far = 9.5 + arg % 4 if arg % 2 else -4.5 - arg % 3
+        h.fill([far] * (nd - 1))  # the first axes must grow, the missing coordinate makes the call raise
+    elif kind == "fill_grow_then_none_coordinate":
+        if nd == 1 or not h.is_adaptive():
+            return NotImplemented
+        far = 9.5 + arg % 4 if arg % 2 else -4.5 - arg % 3
+        h.fill([far] * (nd - 1) + [None])
+    elif kind == "fill_grow_then_str_weight":
+        if not h.is_adaptive():
+            return NotImplemented
+        far = 9.5 + arg % 4 if arg % 2 else -4.5 - arg % 3
+        h.fill(far if nd == 1 else [far] * nd, "heavy")
     elif kind == "fill_weight_too_large_for_dtype":
         if np.dtype(h.dtype).kind != "i":
             return NotImplemented
